@@ -4,6 +4,7 @@
 import Driver.Line
 import Model.Path
 import Model.Getters
+import Model.CastSpec
 
 namespace Jl.Driver.PathCase
 open Jl Jl.Driver Jl.Driver.Line Jl.Value Jl.Path
@@ -150,14 +151,24 @@ def runPathDoc (docS pathS implS : String) : Result :=
 /-- getter \t C17 \t <row Val> \t <getter> \t K:<key> \t <ext> \t <impl Dyn | panic …>: a typed getter
     against the model; C17's oracle: no panic, and the result is of the getter's own type (the value or
     the zero value — absent or unconvertible data never surface any other way). -/
-def runGetter (rowS name keyS extS implS : String) : Result :=
+def runGetter (rowS name keyS extS implS : String) (prop : String := "C17") : Result :=
   let env : Env := ⟨drvTables, parseExt extS⟩
   if implS.startsWith "panic" then ⟨"P", s!"{name}({keyS}) on [{rowS}]: {implS} violates C17: key=panic"⟩ else
   match rowOf rowS, parseKey keyS, Dyn.parse? implS with
   | some row, some k, some impl =>
     match Getters.typedGet env name row k, Getters.table.lookup name with
     | some m, some (_, ty) =>
-      let p : Option String := if Cast.typeOf impl != ty then some "getter-result-of-another-type" else none
+      let p : Option String :=
+        if Cast.typeOf impl != ty then some "getter-result-of-another-type"
+        else if prop == "C09" then
+          -- an integer getter answers the integer the column carries when it fits the getter's type, the zero value
+          -- otherwise — never a wrapped one
+          match impl, (Value.lookup row k).map Cells.raw with
+          | .int t r, some raw =>
+            if r == 0 then none
+            else (CastSpec.intCastViolation t raw (.ok impl)).map fun c => "getter-" ++ c
+          | _, _ => none
+        else none
       match m, p with
       | _, some c => ⟨"P", s!"{name}({keyS}) on [{rowS}]: impl [{implS}] violates C17: key={c}"⟩
       | .err .ext, none => ⟨"X", "model abstains"⟩
